@@ -142,7 +142,11 @@ def correspondence(res, tier):
     for i in range(200 if tier == "quick" else 5000):
         n = 1 + rng.below(6)
         gate.append("scan 1 0 1 1 0 " + bytes(rng.below(256) for _ in range(n)).hex())
+    # the same inputs read by the scanner itself from a file (the path every imported module takes)
+    gate += ["scanfile" + g[4:] for g in gate]
     lines += gate
+    byfile = [(i, "scanfile" + lines[i][4:]) for i in range(len(reqs)) if not reqs[i][3] and i % (11 if tier == "quick" else 3) == 0]
+    lines += [l for _, l in byfile]
     a = corr.run_lines(harness, lines)
     b = corr.run_lines(model, lines)
     res.evaluations += len(lines)
@@ -160,6 +164,11 @@ def correspondence(res, tier):
                 kinds.add(t.split("|")[0])
             if len(src) > 1:
                 res.nontrivial(src)
+        elif i >= len(reqs) + len(gate):
+            j = byfile[i - len(reqs) - len(gate)][0]
+            if x != a[j]:
+                res.violation("byfile:" + lines[j][:200], "the scanner tokenises a source differently when it reads it from a file itself",
+                              {"request": lines[j], "from_bytes": a[j], "from_file": x, "model": y})
         else:
             # monitor for the gate: invalid UTF-8 must be refused
             raw = bytes.fromhex(lines[i].split()[-1])
@@ -187,7 +196,7 @@ def correspondence(res, tier):
     res.exhaustive = True
     res.rule = ("exhaustive: all concatenations of <=%d pieces from a %d-piece alphabet (one representative per lexical class), "
                 "in normal(strict) and alias mode; plus random keyword-bearing lines, repository .ddp files and their truncations, "
-                "and invalid UTF-8 for the gate. non-trivial = source longer than one character; distinct by source text") % (
+                "and invalid UTF-8 for the gate; gate inputs and a sample of the others also through the scanner's own file reading (Source == nil). non-trivial = source longer than one character; distinct by source text") % (
                     3 if tier == "quick" else 4, len(PIECES))
     for i in (5, len(reqs) // 2, len(reqs) - 1):
         res.sample({"request": lines[i][:300], "implementation": a[i][:300], "model": b[i][:300]})
